@@ -147,6 +147,11 @@ def intercepted_body(pspec, stats):
     with intercept(("subspace_minimization",)) as rec:
         run_min(prob, pspec["cfg"])
     for e in rec.get("subspace_minimization", []):
+        if "out" not in e:
+            # the routine itself raised on an input handed over by the solver
+            if isinstance(e.get("exc"), Exception) and not isinstance(e["exc"], Discard):
+                raise e["exc"]
+            continue
         a = e["args"]
         x, xc, free_vars, c, g, lb, ub, mats = a[0], a[1], a[2], a[5], a[6], a[7], a[8], a[9]
         if not (np.all(x >= lb) and np.all(x <= ub) and np.all(xc >= lb) and np.all(xc <= ub)):
